@@ -186,12 +186,12 @@ pub fn scenarios(prop: &str, tier: &str) -> Vec<Cfg> {
     match prop {
         // ------------------------------------------------------------------------------------ C01
         "C01" => {
-            let d = if thorough { 7 } else { 5 };
+            let d = if thorough { 8 } else { 6 };
             for (k, pre) in family_uo_small() {
                 let mut c = Cfg::new("C01", k);
                 c.prefill = (0..pre).map(|_| f(Mode::Gate)).collect();
                 c.specs = vec![f(Mode::Gate), f(Mode::Ready), f(Mode::Yield1), f(Mode::YieldInf), f(Mode::Relay)];
-                c.ops = ops::PUSH | ops::POLL | ops::POLL_NEW | ops::COMPLETE | ops::WAKE | ops::STALE_WAKE;
+                c.ops = ops::PUSH | ops::POLL | ops::POLL_NEW | ops::POLL_HOOK | ops::COMPLETE | ops::WAKE | ops::STALE_WAKE;
                 if k.is_ordered() {
                     c.ops |= ops::PUSH_FRONT;
                 }
@@ -233,7 +233,7 @@ pub fn scenarios(prop: &str, tier: &str) -> Vec<Cfg> {
                 c.name = format!("{:?}[{}]", k, pre.iter().map(|p| p.render()).collect::<Vec<_>>().join(","));
                 c.prefill = pre;
                 c.specs = vec![s("P"), s("IP"), s("w")];
-                c.ops = ops::POLL | ops::POLL_NEW | ops::COMPLETE | ops::WAKE | ops::STALE_WAKE;
+                c.ops = ops::POLL | ops::POLL_NEW | ops::POLL_HOOK | ops::COMPLETE | ops::WAKE | ops::STALE_WAKE;
                 if matches!(k, Kind::Mu(_)) {
                     c.ops |= ops::PUSH;
                 }
@@ -259,7 +259,7 @@ pub fn scenarios(prop: &str, tier: &str) -> Vec<Cfg> {
             }
             for k in adapters(&[1, 2]) {
                 let mut c = adapter_cfg("C01", k, 3, HintShape::Exact, d, 2);
-                c.ops |= ops::WAKE | ops::POLL_NEW | ops::STALE_WAKE;
+                c.ops |= ops::WAKE | ops::POLL_NEW | ops::STALE_WAKE | ops::POLL_HOOK;
                 c.costly = ops::WAKE | ops::POLL_NEW | ops::STALE_WAKE;
                 v.push(c);
             }
@@ -272,7 +272,7 @@ pub fn scenarios(prop: &str, tier: &str) -> Vec<Cfg> {
         }
         // ------------------------------------------------------------------------------------ C02
         "C02" => {
-            let d = if thorough { 8 } else { 6 };
+            let d = if thorough { 9 } else { 7 };
             for (k, pre) in family_u().into_iter().chain(family_o()) {
                 let mut c = Cfg::new("C02", k);
                 c.prefill = (0..pre).map(|_| f(Mode::Gate)).collect();
@@ -305,7 +305,7 @@ pub fn scenarios(prop: &str, tier: &str) -> Vec<Cfg> {
         }
         // ------------------------------------------------------------------------------------ C03 (histories; the layout sweep is in special.rs)
         "C03" => {
-            let d = if thorough { 8 } else { 6 };
+            let d = if thorough { 9 } else { 7 };
             for (k, pre) in [
                 (Kind::Fub(1), 0),
                 (Kind::Fub(2), 0),
@@ -333,7 +333,7 @@ pub fn scenarios(prop: &str, tier: &str) -> Vec<Cfg> {
         }
         // ------------------------------------------------------------------------------------ C04
         "C04" => {
-            let d = if thorough { 7 } else { 5 };
+            let d = if thorough { 8 } else { 6 };
             for (k, pre) in [(Kind::Fob(2), 0), (Kind::Fob(3), 0), (Kind::FoNew, 0), (Kind::FoCap(1), 0), (Kind::FobIter(3), 3), (Kind::FoIter(3), 3)] {
                 let seeds: Vec<Option<usize>> = if pre == 0 { SEEDS.iter().map(|s| Some(*s)).collect() } else { vec![None] };
                 for seed in seeds {
@@ -370,7 +370,7 @@ pub fn scenarios(prop: &str, tier: &str) -> Vec<Cfg> {
         }
         // ------------------------------------------------------------------------------------ C05
         "C05" => {
-            let d = if thorough { 8 } else { 6 };
+            let d = if thorough { 9 } else { 7 };
             for (k, pre) in family_uo_small() {
                 let mut c = Cfg::new("C05", k);
                 c.prefill = (0..pre).map(|_| f(Mode::Gate)).collect();
@@ -420,7 +420,7 @@ pub fn scenarios(prop: &str, tier: &str) -> Vec<Cfg> {
         }
         // ------------------------------------------------------------------------------------ C06
         "C06" => {
-            let d = if thorough { 7 } else { 5 };
+            let d = if thorough { 8 } else { 6 };
             for (k, pre) in family_u().into_iter().chain(family_o()) {
                 let mut c = Cfg::new("C06", k);
                 c.prefill = (0..pre).map(|_| f(Mode::Gate)).collect();
@@ -520,8 +520,8 @@ pub fn scenarios(prop: &str, tier: &str) -> Vec<Cfg> {
                 "C10" => "C10",
                 _ => "C16",
             };
-            let d = if thorough { 8 } else { 6 };
-            let delta = if thorough { 3 } else { 2 };
+            let d = if thorough { 10 } else { 8 };
+            let delta = if thorough { 4 } else { 3 };
             let kinds: Vec<Kind> = if p == "C16" {
                 vec![Kind::Bo(1), Kind::Bo(2), Kind::Bo(3), Kind::Tbo(1), Kind::Tbo(2), Kind::Tbo(3)]
             } else {
@@ -535,7 +535,7 @@ pub fn scenarios(prop: &str, tier: &str) -> Vec<Cfg> {
                 let lens: Vec<usize> = if p == "C16" { vec![n + 1, n + 4, 1000] } else { vec![0, 1, n + 2] };
                 for len in lens {
                     let hint = if len == 1000 { HintShape::Unknown } else { HintShape::Exact };
-                    let mut c = adapter_cfg(p, k, len, hint, if p == "C16" && thorough { 9 } else { d }, delta);
+                    let mut c = adapter_cfg(p, k, len, hint, if p == "C16" && thorough { 11 } else { d }, delta);
                     if p == "C16" {
                         // completing futures is the interesting dimension here
                         c.costly = ops::FEED_UP;
@@ -552,7 +552,7 @@ pub fn scenarios(prop: &str, tier: &str) -> Vec<Cfg> {
         }
         // ------------------------------------------------------------------------------------ C11
         "C11" => {
-            let d = if thorough { 8 } else { 6 };
+            let d = if thorough { 9 } else { 7 };
             for (k, pre) in family_m() {
                 let mut c = Cfg::new("C11", k);
                 c.name = format!("{:?}[{}]", k, pre.iter().map(|p| p.render()).collect::<Vec<_>>().join(","));
@@ -603,7 +603,7 @@ pub fn scenarios(prop: &str, tier: &str) -> Vec<Cfg> {
         }
         // ------------------------------------------------------------------------------------ C12
         "C12" => {
-            let d = if thorough { 8 } else { 6 };
+            let d = if thorough { 9 } else { 7 };
             for (k, pre) in family_uo_small().into_iter().chain([(Kind::FuCap(1), 3)]) {
                 let mut c = Cfg::new("C12", k);
                 c.name = format!("{:?} prefill {}", k, pre);
@@ -711,7 +711,7 @@ pub fn scenarios(prop: &str, tier: &str) -> Vec<Cfg> {
         }
         // ------------------------------------------------------------------------------------ C14
         "C14" => {
-            let d = if thorough { 7 } else { 5 };
+            let d = if thorough { 8 } else { 6 };
             for (k, pre) in family_uo_small().into_iter().chain([(Kind::FuCap(1), 3), (Kind::FoCap(1), 3)]) {
                 let mut c = Cfg::new("C14", k);
                 c.name = format!("{:?} prefill {}", k, pre);
@@ -777,7 +777,7 @@ pub fn scenarios(prop: &str, tier: &str) -> Vec<Cfg> {
         }
         // ------------------------------------------------------------------------------------ C15
         "C15" => {
-            let d = if thorough { 8 } else { 6 };
+            let d = if thorough { 9 } else { 7 };
             let mut fam: Vec<(Kind, usize)> = family_u().into_iter().chain(family_o()).collect();
             fam.extend([(Kind::Fub(4), 0), (Kind::Fob(4), 0), (Kind::FuCap(0), 0), (Kind::FoCap(0), 0), (Kind::FuCap(3), 0), (Kind::FoCap(4), 0), (Kind::FubIter(0), 0), (Kind::FobIter(0), 0)]);
             for (k, pre) in fam {
@@ -805,7 +805,7 @@ pub fn scenarios(prop: &str, tier: &str) -> Vec<Cfg> {
         }
         // ------------------------------------------------------------------------------------ C17
         "C17" => {
-            let d = if thorough { 7 } else { 5 };
+            let d = if thorough { 8 } else { 6 };
             for (k, pre) in family_u().into_iter().chain(family_o()) {
                 let mut c = Cfg::new("C17", k);
                 c.prefill = (0..pre).map(|_| f(Mode::Gate)).collect();
